@@ -140,7 +140,11 @@ func streamEngine(t *testing.T, o *Out, p EngProfile) {
 		o.Pre("engine", fmt.Sprintf("%s%d", tag, id), c.Payload())
 		res, calls := env.runCheck(c, true)
 		if calls > callBudget && !env.hung {
+			// more storage operations than the budget: not comparable (every call beyond the
+			// budget failed), but reported - the oracle asks the model whether the check
+			// should have needed that many
 			o.Count("dropped:cost")
+			o.Emit("engine", fmt.Sprintf("%s%d", tag, id), c.Payload(), fmt.Sprintf("x_over=%d\topl=%d", calls, b2i(c.ViaOPL)), false)
 			return calls
 		}
 		if env.hung {
